@@ -57,6 +57,15 @@ OER_ONLY = [
     dict(id='additions-const-len', quick=True, queries=('E',), text=M(
         'A ::= SEQUENCE { a BOOLEAN, ..., b OCTET STRING (SIZE(127)) OPTIONAL, c OCTET STRING (SIZE(128)) OPTIONAL, '
         'd OCTET STRING (SIZE(200)) OPTIONAL, f OCTET STRING (SIZE(256)) OPTIONAL }')),
+    # exactly 8 additions (bitmap of whole octets), all OPTIONAL so that every presence pattern is a value
+    dict(id='additions-8', quick=True, nbytes_cap=4, queries=('E',), text=M(
+        'A ::= SEQUENCE { a BOOLEAN, ..., b1 BOOLEAN OPTIONAL, b2 NULL OPTIONAL, b3 BOOLEAN OPTIONAL, b4 NULL OPTIONAL, '
+        'b5 BOOLEAN OPTIONAL, b6 NULL OPTIONAL, b7 NULL OPTIONAL, b8 INTEGER (0..255) OPTIONAL }')),
+    # length octets at the short/long form boundary with enough input behind them (F query, padded input)
+    dict(id='octets-127', quick=True, nbytes_cap=2, pad=260, queries=('F',), text=M(
+        'A ::= SEQUENCE { a OCTET STRING (SIZE(0..127)) }')),
+    dict(id='octets-126-128', quick=False, nbytes_cap=2, pad=260, queries=('F',), text=M(
+        'A ::= SEQUENCE { a OCTET STRING (SIZE(0..126)), b OCTET STRING (SIZE(0..128)) }')),
     dict(id='additions-fixed-seqof', quick=True, nbytes_cap=5, text=M(
         'A ::= SEQUENCE { a BOOLEAN, ..., e SEQUENCE (SIZE(3)) OF BOOLEAN OPTIONAL, g SEQUENCE (SIZE(2)) OF INTEGER (0..300) }')),
     dict(id='seqof-fixed', quick=False, text=M(
